@@ -1,7 +1,7 @@
 """C04 -- smallest fitting symbol; overflow reported, never truncated."""
 import common, enc, gen, sweep, encprop
 
-TOP = ['theories/Props/C04.v', 'theories/Tie/TieTables.v', 'theories/Tie/TieVersion.v', 'theories/Tie/TieFit.v', 'theories/Tie/TieSegments.v']
+TOP = ['theories/Props/C04.v', 'theories/Tie/TieTables.v', 'theories/Tie/TieVersion.v', 'theories/Tie/TieFit.v', 'theories/Tie/TieSegments.v', 'theories/Tie/TieEncodeTop.v']
 WANT = ('decode',)
 RULE = ('both sides of every (mode, version, level) capacity boundary x micro in {None, True, False} x requested version in '
         '{none, exact}; multi-part contents around the version-range boundaries 9/10 and 26/27; random cases. Verdict by the extracted '
